@@ -54,6 +54,52 @@ func c02(c *core.Ctx) {
 		in := r.Hostile(seeds(), 4096)
 		c02Judge(c, in, "random", true)
 	})
+	// (f) one receiver over a long life: lookups stay "first attribute of the type" after 255/256/257 and
+	// 65535/65536/65537 consecutive decodes without any lookup in between (counters that guard a cache wrap there)
+	c.SectionSerial("long-lived-receiver", 6, func(i int64, r *gen.Rand) {
+		gap := []int{255, 256, 257, 65535, 65536, 65537}[i]
+		typ := uint16(0x0014)
+		a := ref.Encode(0x0101, r.TID(), []ref.Attr{{Type: 0x8022, Value: []byte("a0")}, {Type: 0x0006, Value: []byte("a1")}, {Type: typ, Value: []byte("only-in-a-at-2")}})
+		b := ref.Encode(0x0101, r.TID(), []ref.Attr{{Type: 0x8022, Value: []byte("b0")}, {Type: typ, Value: []byte("first")}, {Type: typ, Value: []byte("second")}, {Type: typ, Value: []byte("third")}})
+		m := new(stun.Message)
+		for round := 0; round < 3; round++ {
+			_ = stun.Decode(a, m)
+			if v, err := m.Get(stun.AttrType(typ)); err != nil || string(v) != "only-in-a-at-2" {
+				c.Violate("get", "Get:long-lived-receiver", map[string]interface{}{"problem": "lookup on message A", "got": string(v)})
+
+				return
+			}
+			for k := 0; k < gap; k++ {
+				switch k % 3 {
+				case 0:
+					_ = stun.Decode(b, m)
+				case 1:
+					_, _ = m.Write(b)
+				default:
+					m.Reset()
+					_ = m.UnmarshalBinary(b)
+				}
+			}
+			c.Eval(1)
+			if v, err := m.Get(stun.AttrType(typ)); err != nil || string(v) != "first" || !m.Contains(stun.AttrType(typ)) {
+				c.Violate("get", "Get:long-lived-receiver", map[string]interface{}{
+					"problem": fmt.Sprintf("after %d consecutive decodes of message B into one receiver (no lookup in between) Get returns %q; the first attribute of that type is \"first\"", gap, string(v))})
+
+				return
+			}
+			n := 0
+			_ = m.ForEach(stun.AttrType(typ), func(mm *stun.Message) error {
+				v, _ := mm.Get(stun.AttrType(typ))
+				if want := []string{"first", "second", "third"}[n]; string(v) != want {
+					c.Violate("foreach-view", "ForEach-view:long-lived-receiver", map[string]interface{}{"visit": n, "got": string(v), "want": want})
+				}
+				n++
+
+				return nil
+			})
+		}
+		c.Distinct(uint64(gap) | 11<<50)
+	})
 	// (e) every input of 0..3 bytes and a few of 19/20 bytes through every byte-taking entry point: the empty input is
 	// an input like any other (also for GobDecode, whatever GobEncode of a zero Message produces)
 	c.SectionSerial("tiny-inputs-every-entry-point", 1, func(_ int64, r *gen.Rand) {
@@ -345,6 +391,14 @@ func c02Lookups(c *core.Ctx, m *stun.Message, rm *ref.Msg, in []byte) {
 			if gv, gerr := mm.Get(at); gerr != nil || !bytes.Equal(gv, cur.Value) {
 				bad = "Get inside callback"
 			}
+			// lookups of OTHER types from inside the callback (they see the callback's view; whatever they find or
+			// remember must not outlive the walk: checked below, after ForEach has returned)
+			for _, ot := range order {
+				if ot != t {
+					_, _ = mm.Get(stun.AttrType(ot))
+					_ = mm.Contains(stun.AttrType(ot))
+				}
+			}
 			// a nested ForEach (over another type) inside the callback is ordinary use and must restore its own view
 			if len(order) > 1 {
 				window := mm.Attributes
@@ -435,6 +489,22 @@ func c02Lookups(c *core.Ctx, m *stun.Message, rm *ref.Msg, in []byte) {
 				}
 				c.Count("foreach_goexit_and_clone", 1)
 			}
+		}
+	}
+	// after all the walks: lookups are still "first attribute of the type"
+	for _, t := range order {
+		idxs := types[t]
+		v, err := m.Get(stun.AttrType(t))
+		if len(idxs) == 0 {
+			if err == nil {
+				c.Violate("get-absent", "Get-absent:after-walks", map[string]interface{}{"input_hex": core.Hex(in), "type": t})
+			}
+
+			continue
+		}
+		first := rm.TLVs[idxs[0]]
+		if err != nil || !bytes.Equal(v, in[first.Off:first.Off+first.Len]) || (len(v) > 0 && unsafe.SliceData(v) != unsafe.SliceData(m.Attributes[idxs[0]].Value)) {
+			c.Violate("get-first", "Get-first:after-walks", map[string]interface{}{"input_hex": core.Hex(in), "type": t, "got": core.Hex(v)})
 		}
 	}
 }
